@@ -161,7 +161,29 @@ def run(rep, pdb, tier):
             for a_ in ats:
                 if a_[0] == "cmp" and a_[1] == "==":
                     got.add(frozenset((a_[2], a_[3])))
-            ok = len(ats) == 2 and got == {frozenset((F(P(0), "real"), F(P(1), "real"))), frozenset((F(P(0), "imag"), F(P(1), "imag")))}
+            want_ = {frozenset((F(P(0), "real"), F(P(1), "real"))), frozenset((F(P(0), "imag"), F(P(1), "imag")))}
+            ok = len(ats) == 2 and got == want_
+            if not ok:
+                # guard-style spelling: `if !(a.real == b.real) { return false; } a.imag == b.imag` - per return path, the value is true exactly when
+                # the path's equalities together with the returned comparison are both component equalities
+                from .common import return_paths
+                try:
+                    paths = list(return_paths(ctx))
+                except Exception:
+                    paths = []
+                good = bool(paths)
+                for fs_, val_, _n in paths:
+                    eqs = {frozenset((f_[2], f_[3])) for f_ in fs_ if f_[0] == "cmp" and f_[1] == "=="}
+                    nes = {frozenset((f_[2], f_[3])) for f_ in fs_ if f_[0] == "cmp" and f_[1] == "!="}
+                    if val_ == ("bool", False):
+                        good = good and bool(nes & want_) and not (eqs - want_)          # false only because some component differs
+                    elif val_ == ("bool", True):
+                        good = good and eqs >= want_
+                    elif val_[0] == "op" and val_[1] == "==":
+                        good = good and (eqs | {frozenset((val_[2], val_[3]))}) == want_ and not nes
+                    else:
+                        good = False
+                ok = good and len(paths) >= 2
         rep.add(key, rule, ok, fn["body"], "", where=loc(fn["body"]))
     path = "<%s as std::cmp::PartialOrd>::partial_cmp" % C
     fn = pdb.fn(path)
